@@ -186,6 +186,11 @@ func c04GenFile(r *Rng, idx int, le string, nfiles int) c04File {
 	raw(fmt.Sprintf("local %sobj = %sClsTab", pre, pre))
 	raw(fmt.Sprintf("print(%sobj)", pre))
 	if nfiles > 1 {
+		// a class that every file of the workspace declares: each declaration is reported as a duplicate, with the
+		// other declarations as related locations
+		raw("---@class C04SharedDupCls")
+		raw(fmt.Sprintf("local %sShared = {}", pre))
+		raw(fmt.Sprintf("print(%sShared)", pre))
 		o := fmt.Sprintf("f%d", (idx+1)%nfiles)
 		raw(fmt.Sprintf("---@type %sAliasT", o), o+"AliasT")
 		raw(fmt.Sprintf("local %styped = 1", pre))
@@ -327,25 +332,35 @@ func c04Check(c *Ctx, files []c04File, fm map[string]string, le, tag string) {
 	}
 	// diagnostics
 	nameInMsg := regexp.MustCompile(`var not define: (\w+)|^.*\], (\w+) declared and not used|duplicate var:'(\w+)'`)
-	for u, ds := range srv.View() {
-		rel := ws.Rel(u)
-		for _, d := range ds {
-			want := ""
-			if d.Type == 2 || d.Type == 3 || d.Type == 4 || d.Type == 13 || d.Type == 17 {
-				if m := nameInMsg.FindStringSubmatch(d.Message); m != nil {
-					for _, g := range m[1:] {
-						if g != "" {
-							want = g
+	dupTypeMsg := regexp.MustCompile(`duplicate annotate type: (\w+)`)
+	checkDiags := func(phase string) {
+		for u, ds := range srv.View() {
+			rel := ws.Rel(u)
+			for _, d := range ds {
+				want := ""
+				if d.Type == 2 || d.Type == 3 || d.Type == 4 || d.Type == 13 || d.Type == 17 {
+					if m := nameInMsg.FindStringSubmatch(d.Message); m != nil {
+						for _, g := range m[1:] {
+							if g != "" {
+								want = g
+							}
 						}
 					}
 				}
-			}
-			checkRange(fmt.Sprintf("diagnostic-type%d", d.Type), rel, d.Range, want, d.Message)
-			for _, ri := range d.Related {
-				checkRange("diagnostic-related", ws.Rel(ri.Location.URI), ri.Location.Range, "", d.Message)
+				checkRange(fmt.Sprintf("diagnostic-type%d%s", d.Type, phase), rel, d.Range, want, d.Message)
+				for _, ri := range d.Related {
+					// the related locations of a duplicate-type warning are the other declarations of that name
+					rwant := ""
+					if m := dupTypeMsg.FindStringSubmatch(d.Message); m != nil {
+						rwant = m[1]
+						c.Count("related_locations_of_duplicate_types_checked", 1)
+					}
+					checkRange("diagnostic-related"+phase, ws.Rel(ri.Location.URI), ri.Location.Range, rwant, d.Message)
+				}
 			}
 		}
 	}
+	checkDiags("")
 	fail := func() {
 		srv.WaitDeath(5 * time.Second)
 		c.Inconclusive(fmt.Sprintf("server stopped answering (C01's business); witness %s", c.CrashWitness(srv, fm)))
@@ -580,6 +595,23 @@ func c04Check(c *Ctx, files []c04File, fm map[string]string, le, tag string) {
 				}
 			}
 		}
+	}
+	// last: a file that declares the shared class moves all its lines down by one on disk (the document is closed, the change
+	// is announced by the file watcher): the warnings of the OTHER files relate to the declaration at its new place
+	if len(files) > 1 {
+		b := &files[len(files)-1]
+		srv.DidClose(ws.URI(b.Rel))
+		moved := "-- moved down" + le + ws.Files[b.Rel]
+		ws.Write(b.Rel, moved)
+		b.Text = moved
+		fm[b.Rel] = moved
+		srv.Notify("workspace/didChangeWatchedFiles", map[string]interface{}{"changes": []interface{}{map[string]interface{}{"uri": ws.URI(b.Rel), "type": 2}}})
+		if srv.Fence() != nil {
+			fail()
+			return
+		}
+		c.Count("files_moved_down_on_disk", 1)
+		checkDiags("-after-another-file-moved")
 	}
 }
 
